@@ -122,6 +122,11 @@ func (k Key) MatchString(tgt string) bool {
 	vals := strings.Split(tgt, "+")
 	mods := vals[0 : len(vals)-1]
 	key := vals[len(vals)-1]
+	if key == "" && strings.HasSuffix(tgt, "++") {
+		// The key is '+' itself: "Ctrl++"
+		key = "+"
+		mods = mods[:len(mods)-1]
+	}
 
 	var mask ModifierMask
 	for _, m := range mods {
